@@ -528,7 +528,7 @@ impl Prop for C08 {
 
     fn cases(&self, tier: Tier, seed: u64) -> Vec<Value> {
         let mut v = Vec::new();
-        for len in 1..=tier.pick(6, 8) {
+        for len in 1..=tier.pick(7, 9) {
             for code in 0..(1usize << len) {
                 for mode in ["immediate", "delayed", "never"] {
                     for npeers in [1usize, 2] {
@@ -555,7 +555,7 @@ impl Prop for C08 {
             }
         }
         for n in 1..=8usize {
-            for k in 0..tier.pick(20, 200) {
+            for k in 0..tier.pick(100, 1000) {
                 v.push(json!({"kind": "concurrent", "clients": n, "per": 4, "seed": mix(seed ^ (k as u64) << 8 ^ n as u64)}));
             }
         }
